@@ -371,8 +371,8 @@ func genCase(t *rapid.T) Case {
 		}
 		buf := effWriteBuf(cfg, m.From == 1)
 		cands := []int{0, 1, 125, 126, 127, buf - 1, buf, buf + 1, 2 * buf, 2*buf + 1, 3*buf + 5, 65535, 65536, 65537}
-		if ev.Thorough() && rapid.IntRange(0, 30).Draw(t, "huge") == 0 {
-			cands = []int{1 << 20, 3<<20 + 7}
+		if ev.Thorough() && buf >= 512 && rapid.IntRange(0, 60).Draw(t, "huge") == 0 {
+			cands = []int{1 << 20, 3<<20 + 7} // multi-MiB messages (with write buffers that keep the frame count sane)
 		}
 		if rapid.IntRange(0, 3).Draw(t, "sizek") == 0 {
 			m.Size = rapid.IntRange(0, 2000).Draw(t, "sizeu")
@@ -382,7 +382,7 @@ func genCase(t *rapid.T) Case {
 		if m.Size < 0 {
 			m.Size = 0
 		}
-		if max := buf * 400; m.Size > max && m.Size < 1<<20 {
+		if max := buf * 400; m.Size > max && (m.Size < 1<<20 || buf < 512) {
 			m.Size = max // keeps the number of frames of one message bounded for tiny buffers
 		}
 		if m.API == "JSON" && m.Size > 5000 {
